@@ -35,6 +35,23 @@ __CPROVER_ensures(__CPROVER_return_value != 0 && (i == g_v ==> __CPROVER_return_
 void xv_list_add(MutableNodeRefList* l, const XalanNode* n)
 __CPROVER_requires(n != 0 && g_cleared == true) __CPROVER_assigns(g_list_len, g_out_v)
 __CPROVER_ensures(g_list_len == __CPROVER_old(g_list_len) + 1 && (__CPROVER_old(g_list_len) == g_v ? g_out_v == n : g_out_v == __CPROVER_old(g_out_v))) ;
+/* --- NodeSorter::sort(executionContext): which library algorithm, over which range, with which comparator --- */
+bool g_algo_stable; bool g_algo_whole; bool g_algo_called; bool g_cache_guarded_n, g_cache_guarded_s; bool g_cmp_made;
+void xv_guard_cache(int which) __CPROVER_requires(which == 1 || which == 2) __CPROVER_assigns(g_cache_guarded_n, g_cache_guarded_s)
+__CPROVER_ensures(which == 1 ? (g_cache_guarded_n == true && g_cache_guarded_s == __CPROVER_old(g_cache_guarded_s)) : (g_cache_guarded_s == true && g_cache_guarded_n == __CPROVER_old(g_cache_guarded_n))) ;
+void xv_make_comparer(void) __CPROVER_requires(1) __CPROVER_assigns(g_cmp_made) __CPROVER_ensures(g_cmp_made == true) ;
+/* library algorithms (assumed, not verified): std::stable_sort keeps equivalent entries in input order, std::sort / partial_sort / make_heap-based ones do not promise that */
+void xv_algo(int stable, int from_begin, int to_end, int with_comparer)
+__CPROVER_requires(/* the comparator is NodeSortKeyCompare over this sorter's keys */ g_cmp_made == true && with_comparer == 1)
+__CPROVER_requires(/* evaluated sort-key caches are dropped on every exit, also when a key throws (C06) */ g_cache_guarded_n == true && g_cache_guarded_s == true)
+__CPROVER_assigns(g_algo_stable, g_algo_whole, g_algo_called)
+__CPROVER_ensures(g_algo_called == true && g_algo_stable == (stable != 0) && g_algo_whole == (from_begin != 0 && to_end != 0)) ;
+@@FN sortAlgo@@
+void h_sortAlgo(void)
+{
+    size_t n; g_scratch_size = n; g_algo_called = false; g_algo_stable = false; g_algo_whole = false; g_cache_guarded_n = false; g_cache_guarded_s = false; g_cmp_made = false;
+    sortAlgo(0, 0);
+}
 @@FN sortList@@
 void h_sortList(void)
 {
@@ -56,11 +73,27 @@ R = [(r'm_keys\.empty\(\) == false', '(g_nkeys != 0)', 1),
      (r'theList\.clear\(\);', 'xv_list_clear(theList);', (0, 1)),
      (r'theList\.addNode\(m_scratchVector\[(\w+)\]\.m_node\);', r'xv_list_add(theList, xv_scratch_node(\1));', 1),
      (r'assert\(theList\.getLength\(\) == theLength\);', 'assert(xv_list_length(theList) == theLength);', 1)]
+def _algo(m):
+    name, a, b, c = m.group(1), m.group(2).strip(), m.group(3).strip(), m.group(4).strip()
+    return 'xv_algo(%d, %d, %d, %d);' % (1 if name == 'stable_sort' else 0, 1 if a == 'm_scratchVector.begin()' else 0,
+                                          1 if b == 'm_scratchVector.end()' else 0, 1 if c == 'theComparer' else 0)
+R2 = [(r'assert\(m_scratchVector\.empty\(\) == false\);', 'assert(g_scratch_size != 0);', (0, 1)),
+      (r'const CollectionClearGuard<NumberResultsCacheType>\s+guard1\(m_numberResultsCache\);', 'xv_guard_cache(1);', (0, 1)),
+      (r'const CollectionClearGuard<StringResultsCacheType>\s+guard2\(m_stringResultsCache\);', 'xv_guard_cache(2);', (0, 1)),
+      (r'NodeSortKeyCompare\s+theComparer\(\s*executionContext,\s*\*this,\s*m_scratchVector,\s*m_keys\);', 'xv_make_comparer();', 1),
+      (r'using std::\w+;', '', (0, 2)),
+      (r'(?<![\w.>:])(?:std::)?(\w*sort\w*)\(([^,;]*),([^,;]*),([^,;]*)\);', _algo, 1)]
 GH = 'g_scratch_size, g_scr_w_node, g_scr_w_pos, g_sorted, g_list_len, g_out_v, g_cleared, g_guarded'
 UNIT = Unit(
     name='c16_sortlist',
     props=['C16', 'C06'],
-    functions=[Fn(NS, r'^NodeSorter::sort\(\s*StylesheetExecutionContext&\s+executionContext,\s*MutableNodeRefList&\s+theList\)', 'sortList',
+    functions=[Fn(NS, r'^NodeSorter::sort\(StylesheetExecutionContext&\s+executionContext\)', 'sortAlgo',
+                  'void sortAlgo(Self* self, StylesheetExecutionContext* executionContext)', rules=R2, nloops=0,
+                  contract='''__CPROVER_requires(g_scratch_size != 0 && g_algo_called == false && g_cache_guarded_n == false && g_cache_guarded_s == false && g_cmp_made == false)
+__CPROVER_assigns(g_algo_stable, g_algo_whole, g_algo_called, g_cache_guarded_n, g_cache_guarded_s, g_cmp_made)
+__CPROVER_ensures(/* all entries are sorted, by an algorithm that keeps entries the comparator calls equivalent in their input order: with the document-order fallback of the comparator (unit c16_compare) nodes equal on every key stay in document order */
+    g_algo_called == true && g_algo_whole == true && g_algo_stable == true)'''),
+               Fn(NS, r'^NodeSorter::sort\(\s*StylesheetExecutionContext&\s+executionContext,\s*MutableNodeRefList&\s+theList\)', 'sortList',
                   'void sortList(Self* self, StylesheetExecutionContext* executionContext, MutableNodeRefList* theList)', rules=R, nloops=2,
                   loops={0: '''__CPROVER_assigns(i, g_scratch_size, g_scr_w_node, g_scr_w_pos)
 __CPROVER_loop_invariant(i <= theLength && g_scratch_size == i && g_sorted == false && g_cleared == false && g_list_len == theLength)
@@ -76,9 +109,13 @@ __CPROVER_ensures(/* without sort keys the list is left as selected */ g_nkeys =
 __CPROVER_ensures(/* with keys: sorted once, and the list has one node per selected node, the k-th being the node of the k-th sorted entry */
     g_nkeys != 0 ==> (g_sorted == true && g_list_len == g_len0 && (g_v < g_len0 ==> g_out_v == g_sorted_v_node)))''')],
     template=TEMPLATE,
-    jobs=[Job('sortList', 'h_sortList', enforce=['sortList'], replace=['xv_guard_scratch', 'xv_scratch_clear', 'xv_list_length', 'xv_list_item', 'xv_scratch_push', 'xv_stable_sort', 'xv_list_clear', 'xv_scratch_node', 'xv_list_add'],
+    jobs=[Job('sortAlgo', 'h_sortAlgo', enforce=['sortAlgo'], replace=['xv_guard_cache', 'xv_make_comparer', 'xv_algo'], reach='all', timeout=300, min_obligations=4),
+          Job('sortList', 'h_sortList', enforce=['sortList'], replace=['xv_guard_scratch', 'xv_scratch_clear', 'xv_list_length', 'xv_list_item', 'xv_scratch_push', 'xv_stable_sort', 'xv_list_clear', 'xv_scratch_node', 'xv_list_add'],
               loop_contracts=True, reach='all', timeout=300, min_obligations=8)],
     mutants=[
+        Mutant('unstable_sort', NS, r'using std::stable_sort;(.*?)\n    stable_sort\(', r'using std::sort;\1\n    sort(', expect='equivalent'),
+        Mutant('sorts_all_but_last', NS, r'm_scratchVector\.end\(\),\s*theComparer\);', 'm_scratchVector.end() - 1, theComparer);', expect='equivalent'),
+        Mutant('result_cache_not_guarded', NS, r'const CollectionClearGuard<StringResultsCacheType>  guard2\(m_stringResultsCache\);', '', expect='caches'),
         Mutant('guard_replaced_by_clear', NS, r'CollectionClearGuard<NodeVectorType>    guard\(m_scratchVector\);', '', expect='guard'),
         Mutant('position_constant', NS, r'value_type\(theList\.item\(i\), i\)\);', 'value_type(theList.item(i), 0));', expect='position recorded with a node'),
         Mutant('copy_out_off_by_one', NS, r'(theList\.clear\(\);\s*for \()i = 0(; i < theLength; \+\+i\))', r'\g<1>i = 1\2', expect=None),
